@@ -510,8 +510,9 @@ func readers() []reader {
 func sharedContainers(cond int) (at.List, at.Object) {
 	inner := at.NewList(1, 2)
 	nested := at.NewObject("x", 1)
-	base := at.NewList(7, "b", 2, inner, nested, 2.5, nil, true)
-	o := at.NewObject("a", 1, "n", nested, "l", at.NewList(5, 6), "s", "str", "z", nil)
+	// strings and keys that need escaping and non-ASCII ones (serialisers with shared scratch space)
+	base := at.NewList(7, "b\t\"q\" \\ ž😀", 2, inner, nested, 2.5, nil, true, "\u0001ctl", "plain")
+	o := at.NewObject("a", 1, "n", nested, "l", at.NewList(5, 6), "s", "tab\there ž", "z", nil, "k\n😀", "v\"q\"", "é", 2)
 	switch cond {
 	case 1: // spare capacity after Add/Pop
 		base.Add(1, 2, 3)
